@@ -32,22 +32,31 @@ class Slicing(_Text):
     doc = 'LEFT / RIGHT / MID / LEN: exactly the requested leading / trailing / inner characters, whole text when more are ' \
           'requested, empty text for zero, #VALUE! for negative counts; LEFT(s,n)&RIGHT(s,LEN(s)-n)=s; MID(s,1,n)=LEFT(s,n)'
     functions = ('text.LEFT', 'text.RIGHT', 'text.MID', 'text.LEN')
-    bounds = 'text of length 0..3 (quick) / 0..5 (thorough) over all code points; counts and start positions: every integer'
+    bounds = 'text of length 0..3 (quick) / 0..5 (thorough) over all code points; counts and start positions: every integer; negative counts also as any real in (-1000, 0)'
 
     def cases(self, tier):
-        return [{'L': L} for L in self.lens(tier)]
+        return [{'L': L} for L in self.lens(tier)] + [{'L': L, 'negfrac': 1} for L in (0, 2)]
 
     def build(self, e, p):
+        if p.get('negfrac'):
+            # "#VALUE! for negative counts": also for a negative count that is not a whole number
+            n = e.fresh_real('n', -1000, 0)
+            e.add(n.real() < 0)
+            return {'s': e.fresh_str('s', p['L']) if p['L'] else '', 'n': n, 'k': e.fresh_int('k', 1, 3)}
         return {'s': e.fresh_str('s', p['L']) if p['L'] else '', 'n': e.fresh_int('n'), 'k': e.fresh_int('k')}
 
     def run(self, env, inp, p):
         vs = {'vs': inp['s'], 'vn': inp['n'], 'vk': inp['k']}
+        if p.get('negfrac'):
+            return [self.parse_with(env, f, vs) for f in ('LEFT(vs,vn)', 'RIGHT(vs,vn)', 'MID(vs,vk,vn)')]
         fs = ['LEFT(vs,vn)', 'RIGHT(vs,vn)', 'MID(vs,vk,vn)', 'LEN(vs)', 'MID(vs,1,vn)', 'LEFT(vs,vn)&RIGHT(vs,LEN(vs)-vn)']
         return [self.parse_with(env, f, vs) for f in fs]
 
     def post(self, env, inp, out, p):
         if isinstance(out, Raised) or not all(is_record(o) for o in out):
             return False
+        if p.get('negfrac'):
+            return And(*[err_is(o, '#VALUE!') for o in out])
         s, n, k, L = inp['s'], inp['n'], inp['k'], p['L']
         left, right, mid, ln, mid1, glue = out
         cps = cps_of(s)
@@ -76,10 +85,13 @@ class LenConcat(_Text):
     name = 'C15.len_concat'
     doc = 'LEN(a&b) = LEN(a)+LEN(b); CONCATENATE joins its flattened items in order (text verbatim, integers as digits)'
     functions = ('text.LEN', 'text.CONCATENATE', 'utils.iflatten')
-    bounds = 'texts of length 0..2 over all code points; CONCATENATE of up to 3 items (text / integer |n|<10^4), flat or with the first two in an array'
+    bounds = 'texts of length 0..2 over all code points; the law LEN(a&b)=LEN(a)+LEN(b) also for integer (|n| <= 10^9, and 0) and logical operands; CONCATENATE of up to 3 items (text / integer |n|<10^4), flat or with the first two in an array'
 
     def cases(self, tier):
         out = [{'what': 'len', 'la': a, 'lb': b} for a in (0, 1, 2) for b in (0, 1, 2)]
+        # the law itself, also for operands that & turns into text: integers and logicals
+        kinds = ('t1', 't2', 'int', 'bool', 'zero')
+        out += [{'what': 'law', 'ka': a, 'kb': b} for a in kinds for b in kinds if not (a[0] == 't' and b[0] == 't')]
         for n in (1, 2, 3):
             for nested in (False, True):
                 if nested and n < 2:
@@ -94,6 +106,14 @@ class LenConcat(_Text):
                 inp['a'] = e.fresh_str('a', p['la']) if p['la'] else ''
                 inp['b'] = e.fresh_str('b', p['lb']) if p['lb'] else ''
             return self.parse_with(env, 'LEN(va&vb)', {'va': inp['a'], 'vb': inp['b']})
+        if p['what'] == 'law':
+            if env.symbolic:
+                mk = lambda k, n: {'t1': lambda: e.fresh_str(n, 1), 't2': lambda: e.fresh_str(n, 2), 'int': lambda: e.fresh_int(n, -10 ** 9, 10 ** 9),
+                                   'bool': lambda: e.fresh_bool(n), 'zero': lambda: 0}[k]()
+                inp['a'] = mk(p['ka'], 'a')
+                inp['b'] = mk(p['kb'], 'b')
+            vs = {'va': inp['a'], 'vb': inp['b']}
+            return [self.parse_with(env, f, vs) for f in ('LEN(va&vb)', 'LEN(va)', 'LEN(vb)')]
         if env.symbolic:
             items = []
             for i in range(p['n']):
@@ -113,6 +133,19 @@ class LenConcat(_Text):
         return self.parse_with(env, f, vs)
 
     def post(self, env, inp, out, p):
+        if p['what'] == 'law':
+            if isinstance(out, Raised) or not all(ok_result(o) and isint(o['result']) for o in out):
+                return False
+            ab, a, b = [o['result'] for o in out]
+            cl = [ab == a + b]
+            for k, r in ((p['ka'], a), (p['kb'], b)):
+                if k[0] == 't':
+                    cl.append(r == int(k[1]))
+                elif k == 'zero':
+                    cl.append(r == 1)
+                else:
+                    cl.append(r >= 1)
+            return And(*cl)
         if not ok_result(out):
             return False
         if p['what'] == 'len':
@@ -173,13 +206,16 @@ class Case(_Text):
     doc = 'UPPER / LOWER / PROPER change only letter case and are idempotent; UPPER leaves no lower-case letter, LOWER no ' \
           'upper-case letter, PROPER capitalises exactly the letters that follow a non-letter'
     functions = ('text.UPPER', 'text.LOWER', 'text.PROPER')
-    bounds = 'text of length 0..3 (quick) / 0..5 (thorough) over ASCII (0..127)'
+    bounds = 'text of length 0..3 (quick) / 0..5 (thorough) over ASCII (0..127); any integer |n| <= 10^6 in place of the text (also CLEAN)'
     outside = ('non-ASCII alphabets (Unicode case mapping is not modelled)',)
 
     def cases(self, tier):
-        return [{'fn': f, 'L': L} for f in ('UPPER', 'LOWER', 'PROPER') for L in self.lens(tier)]
+        return [{'fn': f, 'L': L} for f in ('UPPER', 'LOWER', 'PROPER') for L in self.lens(tier)] + \
+               [{'fn': f, 'L': -1} for f in ('UPPER', 'LOWER', 'PROPER', 'CLEAN')]
 
     def build(self, e, p):
+        if p['L'] < 0:
+            return {'s': e.fresh_int('s', -10 ** 6, 10 ** 6)}      # a number has no letters: its digits come back
         return {'s': e.fresh_str('s', p['L'], alphabet=ASCII) if p['L'] else ''}
 
     def run(self, env, inp, p):
@@ -190,6 +226,10 @@ class Case(_Text):
         if isinstance(out, Raised) or not all(ok_result(o) for o in out):
             return False
         r, rr = out[0]['result'], out[1]['result']
+        if p['L'] < 0:
+            n = inp['s']
+            digits = models.m_str(n) if env.symbolic else str(n)
+            return And(Or(text_eq(r, digits), isint(r) and r == n), Or(text_eq(rr, digits), isint(rr) and rr == n))
         cps = cps_of(inp['s'])
         if not isstr(r) or len(r) != len(cps):
             return False
